@@ -37,13 +37,13 @@ def cases(draw):
         gen_ops.op_probe_hit(), gen_ops.op_probe(), gen_ops.op_getters(), gen_ops.op_getters(),
         st.just(["reindex"]), st.just(["len_iter_all"]),
         st.tuples(st.just("noop_remove"), st.sampled_from(["never", "gen"]), gen.queries(2), gen.meas_filter()).map(list),
-        st.tuples(st.just("noop_update"), st.sampled_from(["unset_absent_tag", "unset_absent_field", "tags_echo", "fields_echo", "time_other_zone", "time_same", "empty_tags_fn", "never_query"]), gen_ops.hit_spec()).map(list),
+        st.tuples(st.just("noop_update"), st.sampled_from(["unset_absent_tag", "unset_absent_field", "tags_echo", "fields_echo", "time_other_zone", "time_same", "empty_tags_fn", "never_query", "set_unset_absent_tag", "set_unset_absent_field"]), gen_ops.hit_spec()).map(list),
         st.tuples(st.just("noop_update"), st.sampled_from(["unset_absent_tag", "unset_absent_field", "tags_echo", "time_other_zone"]), gen_ops.hit_spec()).map(list),
         st.tuples(st.just("insert"), gen.points(), st.booleans()).map(list),
         st.tuples(st.just("insert"), gen.points(), st.booleans()).map(list),
         st.tuples(st.just("insert_multiple"), st.lists(gen.points(), min_size=1, max_size=3), st.one_of(st.none(), st.integers(0, 3))).map(list),
         st.tuples(st.just("remove_hit"), gen_ops.hit_spec()).map(list),
-        st.tuples(st.just("update_hit"), gen_ops.hit_spec(), st.sampled_from([{"tags": {"a": "upd"}}, {"fields": {"f": 7}}, {"measurement": "m2"}, {"unset_tags": "a"}, {"tags": ["fn_raise", 1, "tags_const"]}, {"tags": ["fn_raise", 2, "tags_const"]}])).map(list),
+        st.tuples(st.just("update_hit"), gen_ops.hit_spec(), st.sampled_from([{"tags": {"a": "upd"}}, {"fields": {"f": 7}}, {"measurement": "m2"}, {"unset_tags": "a"}, {"tags": ["fn_raise", 1, "tags_const"]}, {"tags": ["fn_raise", 2, "tags_const"]}, {"tags": "KBINT"}, {"fields": "KBINT"}])).map(list),
         st.just(["remove_all"]), st.just(["drop", "m1"]),
     )
     return {"mode": mode, "auto_index": auto, "pre": pre, "pre_compact": pre_compact, "ops": draw(st.lists(one, min_size=2, max_size=14))}
@@ -195,6 +195,8 @@ class Run:
                 "unset_absent_tag": {"unset_tags": "zz_absent"}, "unset_absent_field": {"unset_fields": ["zz_absent", "zz2"]}, "tags_echo": {"tags": lockstep.u_tags_echo},
                 "fields_echo": {"fields": lockstep.u_fields_echo}, "time_other_zone": {"time": lockstep.u_time_other_zone}, "time_same": {"time": lockstep.u_time_same},
                 "empty_tags_fn": {"tags": lockstep.u_tags_empty}, "never_query": {"tags": {"a": "upd"}},
+                # a key that no point carries, set and unset by the same call: nothing changes
+                "set_unset_absent_tag": {"tags": {"zz_k": "1"}, "unset_tags": ["zz_k"]}, "set_unset_absent_field": {"fields": {"zz_k": 1}, "unset_fields": "zz_k"},
             }[kind]
             r = self.unchanged(lambda: db.update(qast.build(q), **kw), "update(%s, %s) changing nothing" % (qast.show(q), kind), expect_oserror=not (can_read and can_write))
             # (the returned count is C03's subject; here only bytes and leftovers matter)
@@ -240,8 +242,17 @@ class Run:
                 q = lockstep.Lockstep.resolve_hit(ls, op[1], NEVER)
                 kw = {}
                 raises = False
+                kbint = False
                 for s_, v in op[2].items():
-                    if isinstance(v, list) and v and v[0] == "fn_raise":
+                    if v == "KBINT":
+                        # a user callback interrupted by Ctrl-C: not an Exception, but the operation is left all the same
+                        def _interrupt(old):
+                            raise KeyboardInterrupt()
+
+                        kw[s_] = _interrupt
+                        kbint = bool(m.matches(q))
+                        raises = kbint
+                    elif isinstance(v, list) and v and v[0] == "fn_raise":
                         kw[s_], _ = lockstep.make_callable(s_, v)
                         raises = v[1] <= len(m.matches(q))
                     else:
@@ -257,6 +268,16 @@ class Run:
                 self.flags.add("gated_write")
                 return
             if k == "update_hit" and raises:
+                if kbint:
+                    def guarded():
+                        try:
+                            return fn()
+                        except KeyboardInterrupt:
+                            return "interrupted"
+
+                    self.unchanged(guarded, "update interrupted by KeyboardInterrupt in a callback")
+                    self.flags.add("interrupted_update")
+                    return
                 self.unchanged(fn, "update whose callable raises")
                 return
             try:
@@ -266,7 +287,9 @@ class Run:
             if k == "remove_hit":
                 m.remove(q)
             elif k == "update_hit":
-                margs = {s_: (lockstep.UPD[s_][v[-1]] if isinstance(v, list) else v) for s_, v in op[2].items()}
+                margs = {s_: (lockstep.UPD[s_][v[-1]] if isinstance(v, list) else v) for s_, v in op[2].items() if v != "KBINT"}
+                if not margs:
+                    return  # the interrupting callback selected nothing: the call returned 0 without touching anything
                 m.update(q, None, **margs)
             elif k == "remove_all":
                 m.remove_all()
